@@ -44,6 +44,10 @@ type c15Field struct {
 	Wrap    string `json:"wrap,omitempty"`    // "", set, seq, list (list = sequence converted in the compiled model)
 	Opt     bool   `json:"opt,omitempty"`
 	PK      bool   `json:"pk,omitempty"`
+	// FieldRef: a tuple field typed by a dotted reference to a *field* of another tuple (T.a). Whether such a
+	// reference counts as "referring to type T" is not settled by the property: a line to T is allowed,
+	// not demanded; a line to anything else (e.g. a type that happens to be called like the field) is not.
+	FieldRef bool `json:"fieldref,omitempty"`
 }
 
 type c15Type struct {
@@ -119,7 +123,7 @@ func c15Render(apps []*c15App) string {
 // ---------- generator ----------
 
 var c15AppNames = []string{"Alpha", "Beta", "Gamma", "Delta"}
-var c15TypeNames = []string{"Item", "Order", "User", "Addr", "X", "Ty%2EX", "Ty%2EItem"}
+var c15TypeNames = []string{"Item", "Order", "User", "Addr", "X", "Ty%2EX", "Ty%2EItem", "a", "b"}
 var c15FieldNames = []string{"a", "b", "c", "d", "e", "f", "g"}
 
 type c15Ref struct {
@@ -228,6 +232,23 @@ func genC15(t *rapid.T) c15Case {
 			var prev *c15Ref
 			for k := 0; k < nf; k++ {
 				f := c15Field{Name: c15FieldNames[k]}
+				if rapid.IntRange(0, 7).Draw(t, "fieldref") == 0 {
+					// reference to a field of a tuple of this application: T.a / T.b (a tuple always has a field a)
+					var tuples []c15Ref
+					for _, o := range all {
+						if o.app == a && o.t.Kind == "tuple" && !strings.Contains(o.t.Name, "%") {
+							tuples = append(tuples, o)
+						}
+					}
+					if len(tuples) > 0 {
+						o := tuples[rapid.IntRange(0, len(tuples)-1).Draw(t, "fieldreft")]
+						f.Spell = o.t.Name + "." + pick(t, []string{"a", "a", "b"}, "fieldrefname")
+						f.RefApp, f.RefType, f.FieldRef = a.Name, o.t.model(), true
+						f.Opt = rapid.IntRange(0, 3).Draw(t, "opt") == 3
+						td.Fields = append(td.Fields, f)
+						continue
+					}
+				}
 				if rapid.IntRange(0, 2).Draw(t, "ref") > 0 {
 					o := all[rapid.IntRange(0, len(all)-1).Draw(t, "reft")]
 					if prev != nil && rapid.IntRange(0, 2).Draw(t, "again") == 2 {
@@ -428,6 +449,8 @@ func checkC15(x *X, c c15Case) error {
 		}
 	}
 	var wantEdges []string
+	optEdges := map[string]int{} // lines that may, but need not, be drawn (field references)
+	fieldRefs := false
 	var lists [][3]string
 	shapeTupleToKeyed, shapeShared, shapeOneSeg := false, false, false
 	lastSeen := map[string]string{}
@@ -465,6 +488,13 @@ func checkC15(x *X, c c15Case) error {
 				}
 				if (t.Kind == "tuple" && (tk == "table" || tk == "alias")) || (tk == "table" && strings.Contains(f.RefType, ".")) {
 					shapeTupleToKeyed = true
+				}
+				if f.FieldRef {
+					fieldRefs = true
+					if drawn {
+						optEdges[full+" -> "+tgt]++
+					}
+					continue
 				}
 				if drawn {
 					wantEdges = append(wantEdges, full+" -> "+tgt)
@@ -615,7 +645,9 @@ func checkC15(x *X, c c15Case) error {
 					txt := tt[0]
 					// the type must be recognisable: primitive name, or referenced type name; plus the collection word
 					var need []string
-					if f.RefType != "" {
+					if f.FieldRef {
+						// how a field reference is worded is not constrained
+					} else if f.RefType != "" {
 						need = append(need, f.RefType)
 					} else if !(t.Kind == "table" && f.Wrap != "") {
 						need = append(need, strings.ToLower(f.Prim))
@@ -637,8 +669,24 @@ func checkC15(x *X, c c15Case) error {
 			}
 		}
 	}
-	if strings.Join(d.edges, "\n") != strings.Join(wantEdges, "\n") {
-		return fail("relationship lines differ from the model's references\nwant %v\ngot  %v", wantEdges, d.edges)
+	if fieldRefs {
+		x.Class("tuple_field_reference")
+	}
+	// every demanded line is drawn; what is drawn beyond that must be an allowed optional line
+	rest := map[string]int{}
+	for _, e := range d.edges {
+		rest[e]++
+	}
+	for _, e := range wantEdges {
+		if rest[e] == 0 {
+			return fail("relationship lines differ from the model's references: %q is missing\nwant %v (optional %v)\ngot  %v", e, wantEdges, optEdges, d.edges)
+		}
+		rest[e]--
+	}
+	for e, n := range rest {
+		if n > optEdges[e] {
+			return fail("relationship lines differ from the model's references: %q is drawn %d time(s) more than the model's references allow\nwant %v (optional %v)\ngot  %v", e, n-optEdges[e], wantEdges, optEdges, d.edges)
+		}
 	}
 	if multi || shortColl {
 		x.NonTrivial(c.Text)
@@ -648,7 +696,7 @@ func checkC15(x *X, c c15Case) error {
 }
 
 var c15Diag = Define("C15", "classes",
-	"Random data models: 1-3 applications x 1-5 types (thorough tier: 1-4 x 1-7) drawn from a small name pool that contains a short name (X), dotted names (Ty.X, Ty.Item, written with %2E) and names reused across applications; kinds tuple (1/2), table (1/4), enum, primitive alias. Tuple fields (1-6): primitive (every spelling of genPrim) or a reference to any type of any application (local or App.Type spelling; 1 in 3 repeats the previous target, self-references arise), bare / set / sequence / list (a sequence turned into a list in the compiled model), optional or not. Tables: int primary key plus primitive columns, foreign keys Table.id (repeated targets, a few across applications) and one-segment type references. Oracle on the PlantUML of GenerateDataModels (direct mode, one diagram; every line must belong to the emitted subset): exactly one class per type with the right label and kind, no other class, each alias declared once, every field listed once with a type text that names the primitive or the referenced type and the collection word, enum items equal, and the multiset of relationship lines (resolved through the alias table) equal to one line per field that refers to a declared type; a line to an alias no class declares is an error. Non-trivial: >=2 fields of one type refer to the same target, or one short name is declared in two applications; distinct by text.",
+	"Random data models: 1-3 applications x 1-5 types (thorough tier: 1-4 x 1-7) drawn from a small name pool that contains a short name (X), dotted names (Ty.X, Ty.Item, written with %2E) and names reused across applications; kinds tuple (1/2), table (1/4), enum, primitive alias. Tuple fields (1-6): primitive (every spelling of genPrim) or a reference to any type of any application (local or App.Type spelling; 1 in 3 repeats the previous target, self-references arise) or, 1 in 8, a reference to a *field* of a tuple of the same application (T.a; a line to T is allowed but not demanded, any other line is an error; the name pool lets a type be called like a field), bare / set / sequence / list (a sequence turned into a list in the compiled model), optional or not. Tables: int primary key plus primitive columns, foreign keys Table.id (repeated targets, a few across applications) and one-segment type references. Oracle on the PlantUML of GenerateDataModels (direct mode, one diagram; every line must belong to the emitted subset): exactly one class per type with the right label and kind, no other class, each alias declared once, every field listed once with a type text that names the primitive or the referenced type and the collection word, enum items equal, and the multiset of relationship lines (resolved through the alias table) equal to one line per field that refers to a declared type; a line to an alias no class declares is an error. Non-trivial: >=2 fields of one type refer to the same target, or one short name is declared in two applications; distinct by text.",
 	genC15, checkC15)
 
 func TestC15(t *testing.T) {
